@@ -17,6 +17,7 @@ func init() {
 			"(C15-d-key) the key is (owner key of src, owner key of dst, protocol, port) in this order, the owner key holds namespace, owner name and label variant, the variant is always the hash of the labels given to the same pod, and the hashed text is an entry-delimited encoding of the whole label map. " +
 			"(C15-inv) removing a pod from the cache's owner index invalidates the owner's cached verdicts on every exit that does not know a non-empty remaining pod set of that owner (path states; `the owner is not in the index` is not such knowledge: the index is reset on every policy change). " +
 			"(C15-upd) wherever a pod is stored into the pods map, a lookup of the map under the same key guards a call that removes cached results before the store: an object that replaces an existing pod may differ in its container ports, which the cache key does not hold (defect F22, repaired). " +
+			"(C15-inv-match) the scan that removes the cached results of an owner finds them by containment of the owner key and by nothing narrower (a narrower predicate has to agree with the layout of the key). " +
 			"NOT decided: the answers themselves, correctness of deleteWorkload's substring matching, lru eviction, verdict changes through pod fields outside the cache key."
 		rules.CacheInvalidation(p, r)
 		rules.PreScanCannotFail(p, r, "E4a-scan")
@@ -52,6 +53,7 @@ func init() {
 		rules.CacheWriteDiscipline(p, r, "C15-d-store")
 		rules.CacheKeyShape(p, r, "C15-d-key")
 		rules.PodReplacementInvalidates(p, r, "C15-upd")
+		rules.InvalidationMatchesByContainment(p, r, "C15-inv-match")
 		r.Floor("E4a", 8)
 		r.Assume("pod-granular cache bookkeeping (addPod/deletePod) is accepted as invalidation for podsMap only: the cache key embeds namespace, owner name and label hash of both pods")
 		r.Assume("a closure is invoked before its creating function returns (true for every closure of the module: sort callbacks, option setters are not on these paths)")
